@@ -407,25 +407,27 @@ class Grid:
         existing_metric_axes = set(self._metrics.keys())
         if metric_axes in existing_metric_axes:
             value_exist = self._metrics.get(metric_axes)
-            # resetting coords avoids potential broadcasting / alignment issues
-            value_new = self._ds[metric_varname].reset_coords(drop=True)
-            did_overwrite = False
-            # go through each existing value until data array with matching dimensions is selected
-            for idx, ve in enumerate(value_exist):
-                # double check if dimensions match
-                if set(value_new.dims) == set(ve.dims):
-                    if overwrite:
-                        # replace existing data array with new data array input
-                        self._metrics[metric_axes][idx] = value_new
-                        did_overwrite = True
-                    else:
-                        raise ValueError(
-                            f"Metric variable {ve.name} with dimensions {ve.dims} already assigned in metrics."
-                            f" Overwrite {ve.name} with {metric_varname} by setting overwrite=True."
-                        )
-            # if no existing value matches new value dimension-wise, just append new value
-            if not did_overwrite:
-                self._metrics[metric_axes].append(value_new)
+            # register every variable of the call, one after another
+            for metric_varname in metric_value:
+                # resetting coords avoids potential broadcasting / alignment issues
+                value_new = self._ds[metric_varname].reset_coords(drop=True)
+                did_overwrite = False
+                # go through each existing value until data array with matching dimensions is selected
+                for idx, ve in enumerate(value_exist):
+                    # double check if dimensions match
+                    if set(value_new.dims) == set(ve.dims):
+                        if overwrite:
+                            # replace existing data array with new data array input
+                            self._metrics[metric_axes][idx] = value_new
+                            did_overwrite = True
+                        else:
+                            raise ValueError(
+                                f"Metric variable {ve.name} with dimensions {ve.dims} already assigned in metrics."
+                                f" Overwrite {ve.name} with {metric_varname} by setting overwrite=True."
+                            )
+                # if no existing value matches new value dimension-wise, just append new value
+                if not did_overwrite:
+                    self._metrics[metric_axes].append(value_new)
         else:
             # no existing metrics for metric_axes yet; initialize empty list
             self._metrics[metric_axes] = []
